@@ -145,7 +145,7 @@ func directedScalarValues(s string) []*aval {
 
 func vint(a int64) *aval { return aInt64(a) }
 
-func cmdDirected() {
+func cmdDirected(quick bool) {
 	g := &gen{r: rand.New(rand.NewSource(hlib.Seed() + 7))}
 	n := 0
 	obs := false
@@ -161,9 +161,15 @@ func cmdDirected() {
 	// (1) every scalar x every accepted representation able to hold the value (value and pointer form) x boundary values
 	for _, s := range scalarNames {
 		t := scalarT(s)
-		for ai, a := range directedScalarValues(s) {
+		vals := directedScalarValues(s)
+		for ai, a := range vals {
 			for si, sr := range scalarReps(s) {
 				if !sr.ok(a) {
+					continue
+				}
+				// quick tier: every representation still sees the extremes, the first values (0, +-1 / the spec table for the
+				// preferred representation) and a rotating quarter of the boundary set
+				if quick && !(ai < 2 || ai >= len(vals)-2 || (ai+si)%4 == 0 || (si == 0 && (s == "SVarint" || len(vals) <= 16))) {
 					continue
 				}
 				if len(a.bs) > 60000 && sr.name != scalarReps(s)[0].name {
@@ -217,7 +223,11 @@ func cmdDirected() {
 		obs = ci >= len(types)-3
 		for _, ver := range []primitive.ProtocolVersion{primitive.ProtocolVersion2, primitive.ProtocolVersion3, primitive.ProtocolVersion5} {
 			emit(c.t, g.plan(c.t, []*aval{c.a}, false, true), c.a, ver)
-			for k := 0; k < 6; k++ {
+			nplans := 6
+			if quick {
+				nplans = 2
+			}
+			for k := 0; k < nplans; k++ {
 				emit(c.t, g.plan(c.t, []*aval{c.a}, false, false), c.a, ver)
 			}
 		}
